@@ -13,11 +13,22 @@ use std::{
 };
 
 /// A concurrent iterator over a vector, consuming the vector and yielding its elements.
-#[derive(Debug)]
 pub struct ConIterOfVec<T: Send + Sync> {
     vec: UnsafeCell<ManuallyDrop<Vec<T>>>,
     vec_len: usize,
     counter: AtomicCounter,
+    /// Position of the first element which is skipped, and hence never yielded, due to `skip_to_end`; `usize::MAX` if none.
+    skipped_from: AtomicCounter,
+}
+
+impl<T: Send + Sync> std::fmt::Debug for ConIterOfVec<T> {
+    fn fmt(&self, f: &mut std::fmt::Formatter<'_>) -> std::fmt::Result {
+        f.debug_struct("ConIterOfVec")
+            .field("vec", &self.vec)
+            .field("vec_len", &self.vec_len)
+            .field("counter", &self.counter)
+            .finish()
+    }
 }
 
 impl<T: Send + Sync> Drop for ConIterOfVec<T> {
@@ -25,8 +36,9 @@ impl<T: Send + Sync> Drop for ConIterOfVec<T> {
         let current = self.counter.current();
         let vec = self.vec.get_mut();
         let len = vec.len();
-        let begin = current.min(len);
-        // SAFETY: elements at `0..begin` are moved out to the callers, `begin..len` are still owned by the vector;
+        let begin = current.min(self.skipped_from.current()).min(len);
+        // SAFETY: elements at `0..begin` are moved out to the callers, `begin..len` are still owned by the vector
+        // (the ones skipped by `skip_to_end` included);
         // the length is reset first so that dropping the vector only releases its buffer.
         unsafe {
             let ptr = vec.as_mut_ptr();
@@ -37,6 +49,12 @@ impl<T: Send + Sync> Drop for ConIterOfVec<T> {
     }
 }
 
+pub(crate) fn no_skip() -> AtomicCounter {
+    let counter = AtomicCounter::new();
+    counter.store(usize::MAX);
+    counter
+}
+
 impl<T: Send + Sync> ConIterOfVec<T> {
     /// Consumes and creates a concurrent iterator of the given `vec`.
     pub fn new(vec: Vec<T>) -> Self {
@@ -44,6 +62,7 @@ impl<T: Send + Sync> ConIterOfVec<T> {
             vec_len: vec.len(),
             vec: ManuallyDrop::new(vec).into(),
             counter: AtomicCounter::new(),
+            skipped_from: no_skip(),
         }
     }
 
@@ -128,7 +147,12 @@ impl<T: Send + Sync> AtomicIter<T> for ConIterOfVec<T> {
     }
 
     fn early_exit(&self) {
-        self.counter().store(self.vec_len)
+        // advancing by the length ends the iteration as storing the length does,
+        // and additionally tells which elements are not reserved by any pull
+        let first_skipped = self.counter().fetch_and_add(self.vec_len);
+        if first_skipped < self.vec_len {
+            self.skipped_from.store(first_skipped);
+        }
     }
 }
 
